@@ -18,6 +18,7 @@ ENTRIES = [
     Entry('updateX-inplace', S, [('return x + self._flattenX(unflatdxdt)*dt', 'x += self._flattenX(unflatdxdt)*dt\n        return x')], 'R6.3'),
     Entry('updateX-second-order-term', S, [('return x + self._flattenX(unflatdxdt)*dt', 'return x + self._flattenX(unflatdxdt)*dt*dt')], 'R6.2'),
     Entry('wrapper-time-shift', S, [('dXdt = self._f(t, unflatX)', 'dXdt = self._f(self._dtmin, unflatX)')], 'R6.2'),
+    Entry('flatten-returns-view', 'kawin/GenericModel.py', [('        return np.hstack(X)\n', '        if len(X) == 1:\n            return np.ravel(X[0])\n        return np.hstack(X)\n')], 'R6.5'),
     # behaviour-preserving variants
     Entry('benign-rename-locals', I, [('k3 = f(t + dt/2, X_k2)\n    dxdtsum += 2*k3\n    X_k3 = updateX(X_old, k3, dt)', 'slope3 = f(t + dt/2, X_k2)\n    dxdtsum += 2*slope3\n    X_k3 = updateX(X_old, slope3, dt)')], kind='benign'),
     Entry('benign-half-literal', I, [('k3 = f(t + dt/2, X_k2)', 'k3 = f(t + 0.5*dt, X_k2)')], kind='benign'),
